@@ -1,5 +1,5 @@
 SPECIFICATION MCSpec
-CONSTANTS Key = {1, 2} Txn = {1, 2} MaxDepth = 4 MaxTso = 5
+CONSTANTS Key = {1, 2} Txn = {1, 2} MaxDepth = 4 MaxTso = 5 EmitOn = FALSE
 INVARIANTS InvNeverBoth InvScan InvRead InvIdem InvLatePrewrite InvGC InvMarker
 VIEW VIEW_
 CHECK_DEADLOCK FALSE
